@@ -1,6 +1,7 @@
 package props
 
 import (
+	"strings"
 	"encoding/json"
 	"fmt"
 	"reflect"
@@ -72,6 +73,19 @@ func CheckPromiseTransitions(w *world.World, e *world.CommitEvent, prop string) 
 		}
 		if a.CompletedOn == nil || a.ValueHeaders == nil || a.ValueData == nil {
 			w.Violate(prop+":completion-incomplete", "promise %q completed without value/completion time: %s", id, a)
+			continue
+		}
+		// a promise that leaves pending at or after its deadline was timed out (explicit
+		// completions are only accepted before the deadline): the time-out carries no value
+		// and no completion key of whichever request happened to record it
+		if *a.CompletedOn >= b.Timeout {
+			wantState := 16
+			if jsonMap(b.Tags)["resonate:timeout"] == "true" {
+				wantState = 2
+			}
+			if a.State != wantState || *a.CompletedOn != b.Timeout || a.IkComplete != nil || (*a.ValueData != "" && *a.ValueData != "null") {
+				w.Violate(prop+":timeout-carries-request-data", "promise %q (deadline %d) was timed out by commit %v as %s: a time-out has state %d, completion time = deadline, no value and no completion idempotency key", id, b.Timeout, e.Owners, a, wantState)
+			}
 		}
 	}
 	for id, a := range e.After.Promises {
@@ -295,6 +309,7 @@ func C01Scenarios(tier string) []*Scenario {
 					Sweeps:    map[string]int{"TimeoutPromises": 1},
 					ClockMenu: []int64{10},
 					Faults:    1,
+					Lates:     lateIf(strings.HasPrefix(su.name, "pending")),
 					Crashes:   0,
 					Epilogue:  promiseEpilogue("p"),
 					Monitors:  func() []world.Monitor { return []world.Monitor{C01Monitor{}} },
@@ -348,4 +363,11 @@ func C01Scenarios(tier string) []*Scenario {
 		}
 	}
 	return out
+}
+
+func lateIf(b bool) int {
+	if b {
+		return 1
+	}
+	return 0
 }
